@@ -44,9 +44,9 @@ sed -i "s#const Root = \"/verif\"#const Root = \"$VC\"#" $VC/vlib/vlib.go
 CAUGHT=""
 for P in $PROPS; do
   echo "--- ./run $P --tier quick against the changed tree"
-  OUT=$(cd $VC && VERIF_LABD=$VC/.build/labd timeout 2400 ./run $P --tier quick 2>&1 | grep "VIOLATION\|detail\|INFRA\|quick:" | sort | uniq | cut -c1-260 | head -6)
-  echo "$OUT"
-  echo "$OUT" | grep -q "^VIOLATION" && CAUGHT="$CAUGHT $P"
+  FULL=$(cd $VC && VERIF_LABD=$VC/.build/labd timeout 2400 ./run $P --tier quick 2>&1 | grep "VIOLATION\|detail\|INFRA\|quick:" | sort | uniq | cut -c1-260)
+  echo "$FULL" | head -7
+  echo "$FULL" | grep -q "^VIOLATION" && CAUGHT="$CAUGHT $P"
 done
 git -C /repo worktree remove --force $WT; rm -rf $VC
 echo "=== $ID-$N: demo_base_pass=$([ $BASE = 0 ] && echo yes || echo NO) own_tests_pass=$([ $OWN = 0 ] && echo yes || echo NO) demo_with_change_fails=$([ $WITH != 0 ] && echo yes || echo NO) caught_by=[${CAUGHT# }]"
